@@ -83,8 +83,15 @@ def gen_cases(tier, rng):
             for pad in range(0, 8) if (code % 4 == 3 or tier == "thorough") else (0, 3, 5):
                 s2 = "d" * pad + lead + ch + "no" + "z" * 9
                 cases.append((mk(["pb " + hx(s2), "x %d" % bits, "x %d" % bits, "x %d" % bits, "k"]), "cover-bytes"))
+    # the rest of the public API: pop_front, is_empty, peek_front_chunk_mut, and the two-queue hand-over
+    for s1 in ["", "ab", "a|bc", "\r|\n"]:
+        for s2 in ["", "x", "xy|z"]:
+            pre = ["pb " + hx(c) for c in s1.split("|") if s1] + ["apb " + hx(c) for c in s2.split("|") if s2]
+            for mid in (["sw"], ["rw"], ["sw", "sw"], ["rw", "apb " + hx("q"), "sw"], ["n", "sw", "n", "sw"], ["pp", "rw", "pp"]):
+                for q in ["n", "k", "pp", "ie", "fc", "x %d" % SETS[0], "e 0 " + hx("x"), "e 0 " + hx("ab")]:
+                    cases.append((mk(pre + mid + [q, "ie", "k", "n"]), "cover-api"))
     # ops on the empty queue
-    for q in queries:
+    for q in queries + ["pp", "ie", "fc", "sw", "rw"]:
         cases.append((mk([q]), "cover-empty"))
     # --- pattern boundary cover: pattern vs every 2/3-partition of stream = pattern-prefix ++ tail
     for p in PATS:
@@ -102,6 +109,8 @@ def gen_cases(tier, rng):
             r = rng.random()
             if r < 0.3:
                 ops.append(("pb " if rng.random() < 0.8 else "pf ") + hx("".join(rng.choice(ALPHA) for _ in range(rng.randint(0, 5)))))
+            elif r < 0.36:
+                ops.append(rng.choice(["apb " + hx("".join(rng.choice(ALPHA) for _ in range(rng.randint(0, 4)))), "sw", "rw", "pp", "ie", "fc"]))
             elif r < 0.45:
                 ops.append("n")
             elif r < 0.55:
@@ -130,14 +139,42 @@ def oracle(line, out):
         return "implementation crashed: %s" % out
     ops = line.split("\t")[1].split(";")
     res = out.split(";")
+    used_aux = any(o.startswith("apb") or o in ("sw", "rw") for o in ops)
+    aux_out = None
+    if used_aux:
+        if not res or not res[-1].startswith("A="):
+            return "malformed output (second queue missing)"
+        aux_out = res.pop()
     if len(res) != len(ops) + 1:
         return "malformed output"
     flat = ""          # the concatenated stream
     bufs = []          # buffer partition (only used for the 'does not cross a join' clause)
+    aux = []           # the second queue
     for op, r in zip(ops, res):
         f = op.split(" ")
         if r == "panic":
             return "op %r panicked" % op
+        if f[0] == "apb":
+            s = unhx(" ".join(f[1:]))
+            if s:
+                aux.append(s)
+        elif f[0] == "sw":
+            bufs, aux = aux, bufs
+        elif f[0] == "rw":
+            bufs, aux = aux, []
+        elif f[0] == "pp":
+            exp = "pp=" + (hx(bufs[0]) if bufs else "-")
+            if r != exp:
+                return "pop_front: got %s want %s" % (r, exp)
+            if bufs:
+                bufs.pop(0)
+        elif f[0] == "ie":
+            if r != "ie=%d" % (0 if bufs else 1):
+                return "is_empty: got %s on stream %r" % (r, "".join(bufs))
+        elif f[0] == "fc":
+            exp = "fc=" + (hx(bufs[0]) if bufs else "-")
+            if r != exp:
+                return "peek_front_chunk_mut: got %s want %s" % (r, exp)
         if f[0] in ("pb", "pf"):
             s = unhx(" ".join(f[1:]))
             if s:
@@ -206,6 +243,8 @@ def oracle(line, out):
         return "final stream %s differs from flat model %r" % (got, flat)
     if any(x == "-" for x in got[2:].split("|")) and got != "Q=":
         return "empty buffer left in queue: %s" % got
+    if aux_out is not None and aux_out != "A=" + "|".join(hx(b) for b in aux):
+        return "second queue %s, expected %s" % (aux_out, "A=" + "|".join(hx(b) for b in aux))
     return None
 
 
